@@ -317,9 +317,18 @@ static int f_call(int okind, Cipher c, void *h, int op)
     }
 }
 
+static int canary_run(const uint8_t *p, size_t n) { size_t i; for (i = 0; i < n; ++i) if (p[i] != 0xC3) return 0; return 1; }
+
 static void c16_case(int okind, Cipher c, int be, int prior, int failk, int s0, int s1, int s2)
 {
-    union { CtrObj c; ParObj p; } other, victim, cleaned;
+    typedef union { CtrObj c; ParObj p; } AnyObj;
+    AnyObj other, cleaned;
+    /* the object of the failing init sits between canary bytes: exactly the library's handle type is its extent */
+    static uint8_t vbuf[192] __attribute__((aligned(32)));
+    const size_t hs = okind == OK_CTR ? sizeof(Skinny128CTR_t) : sizeof(Skinny128ParallelECB_t);
+    AnyObj *const vp = (AnyObj *)(void *)(vbuf + 64);
+#define victim (*vp)
+#define VICTIM_CANARIES_OK() (canary_run(vbuf, 64) && canary_run(vbuf + 64 + hs, sizeof(vbuf) - 64 - hs))
     char cd[160], sig[200], sb[96];
     int r, seq[3], nseq = 0, i, allocs_needed, live_other;
     uint8_t oimg[8192], oimg2[8192]; size_t ol, ol2;
@@ -342,20 +351,28 @@ static void c16_case(int okind, Cipher c, int be, int prior, int failk, int s0, 
     if (!r) engine_error("second init failed");
     if (okind == OK_CTR) ctr_cleanup(c, &cleaned.c); else par_cleanup(c, &cleaned.p);
     if (failk > allocs_needed) { guard_leave(); return; }
+    memset(vbuf, 0xC3, sizeof(vbuf));
     switch (prior) {
-    case 0: memset(&victim, 0, sizeof(victim)); break;
-    case 1: memset(&victim, 0xFF, sizeof(victim)); break;
-    case 2: memset(&victim, 0xA5, sizeof(victim)); break;
-    case 3: memcpy(&victim, &other, sizeof(victim)); break;
-    case 4: memcpy(&victim, &cleaned, sizeof(victim)); break;
-    default: verif_paint_obj(&victim, sizeof(victim)); break;   /* C11: nothing may be computed from this */
+    case 0: memset(&victim, 0, hs); break;
+    case 1: memset(&victim, 0xFF, hs); break;
+    case 2: memset(&victim, 0xA5, hs); break;
+    case 3: memcpy(&victim, &other, hs); break;
+    case 4: memcpy(&victim, &cleaned, hs); break;
+    default: verif_paint_obj(&victim, hs); break;   /* C11: nothing may be computed from this */
     }
     ol = okind == OK_CTR ? ctr_image(c, &other.c, oimg, sizeof(oimg)) : par_image(c, &other.p, oimg, sizeof(oimg));
     live_other = arena_live();
     /* the failing init */
     g_fail_at = g_alloc_calls + failk;
+    g_obj_keep_prior = 1;
     r = okind == OK_CTR ? ctr_init(c, be, &victim.c) : par_init(c, be, &victim.p);
+    g_obj_keep_prior = 0;
     g_fail_at = 0;
+    if (!VICTIM_CANARIES_OK()) {
+        snprintf(sig, sizeof(sig), "%s/failed-init-wrote-outside-object", sb);
+        violation(sig, cd, "the failing init modified memory outside the %zu bytes of the caller's object (prior content %s)", hs, PRIOR[prior]);
+        memset(vbuf, 0xC3, 64); memset(vbuf + 64 + hs, 0xC3, sizeof(vbuf) - 64 - hs);
+    }
     distinct_add_u64(fnv1a(cd, strlen(cd), 16));
     out_digest("init-return-under-allocation-failure", &r, sizeof(r));
     if (r != 0) {
@@ -372,6 +389,11 @@ static void c16_case(int okind, Cipher c, int be, int prior, int failk, int s0, 
         if (rr != 0) {
             snprintf(sig, sizeof(sig), "%s/failed-object-accepted/%s", sb, FNAME[seq[i]]);
             violation(sig, cd, "%s on the object of a failed init returned %d (prior content %s)", FNAME[seq[i]], rr, PRIOR[prior]);
+        }
+        if (!VICTIM_CANARIES_OK()) {
+            snprintf(sig, sizeof(sig), "%s/call-after-failed-init-wrote-outside-object/%s", sb, FNAME[seq[i]]);
+            violation(sig, cd, "%s on the object of a failed init modified memory outside the object (prior content %s)", FNAME[seq[i]], PRIOR[prior]);
+            break;
         }
         if (g_lerr.foreign_free || g_lerr.double_free || g_lerr.interior_free || arena_live() != live_other) {
             snprintf(sig, sizeof(sig), "%s/failed-object-freed-something/%s", sb, FNAME[seq[i]]);
@@ -401,6 +423,8 @@ static void c16_case(int okind, Cipher c, int be, int prior, int failk, int s0, 
         }
     }
     guard_leave();
+#undef victim
+#undef VICTIM_CANARIES_OK
 }
 
 static void run_c16(void)
